@@ -137,6 +137,7 @@ func runCase(c Case, r *runlog.R) error {
 	var target reflect.Value
 	var prevCfg *ucfg.Config
 	nontrivial := false
+	poisoned := false
 
 	for k := range steps {
 		st := &steps[k]
@@ -153,7 +154,11 @@ func runCase(c Case, r *runlog.R) error {
 			r.Discard()
 			return nil
 		}
-		if st.Fresh || !target.IsValid() {
+		if st.Fresh || !target.IsValid() || poisoned {
+			// (poisoned: the previous call failed inside the own Unpack of a type after that had stored the
+			// rejected value in its receiver. Behind a pre-filled pointer the receiver is the pointee the struct
+			// shares, whose contents may differ after a failure; it would make every later call fail.)
+			poisoned = false
 			if target.IsValid() {
 				earlier = append(earlier, done{target, deepCopy(target.Elem()), k - 1})
 			}
@@ -234,6 +239,7 @@ func runCase(c Case, r *runlog.R) error {
 				class("failure explained by a setting that does not convert on its own")
 			}
 			class("outcome: error")
+			poisoned = st.Fault != nil && st.Fault.Kind == "unpack-after-store"
 			if st.Fault != nil {
 				class("fault: " + st.Fault.Kind)
 				classIf(st.Fault.Index > 0, "fault after at least one processed setting")
